@@ -191,6 +191,10 @@ func trunc(s string, n int) string {
 
 const maxSamples = 6
 
+// maxHashes bounds the memory of the distinctness set of one sub-check in one shard; beyond it
+// distinct_nontrivial is an under-count (conservative).
+const maxHashes = 3_000_000
+
 func (s *propStats) record(canon []byte, rec *Rec) {
 	h := fnv.New64a()
 	h.Write(canon)
@@ -208,7 +212,7 @@ func (s *propStats) recordKey(key uint64, rec *Rec, sample func() []byte) {
 	}
 	if rec != nil && rec.nontrivial {
 		s.NonTrivial++
-		if _, ok := s.hashes[key]; !ok {
+		if _, ok := s.hashes[key]; !ok && len(s.hashes) < maxHashes {
 			s.hashes[key] = struct{}{}
 			n := len(s.hashes)
 			// keep the first few and then exponentially spread-out samples
